@@ -912,6 +912,7 @@ func replayCase(s *search, path string) {
 		rep.Coverage["name_resemblance_probes"] = namesDoNotMatter(rep, s.runDir+"/w0/r")
 		rep.Coverage["states"], rep.Coverage["transitions"], rep.Coverage["exhaustive"] = 0, 0, false
 		rep.Coverage["traces_validated_against_impl"] = 0
+		rep.Coverage["samples"] = []any{map[string]any{"replayed_signature": head.Signature}}
 		return
 	}
 	var f struct {
